@@ -14,10 +14,11 @@ def frac1 (q : Rat) : Rat := q - q.floor
 `bounds N dTop dBot` → `start stop` -/
 def handle : List String → String
   | ["chirp", dm, ref, fc, rate, n] =>
-    match parseRat? dm, parseRat? ref, parseRat? fc, parseRat? rate, parseNat? n with
-    | some dm, some ref, some fc, some rate, some n =>
+    match parseRat? dm, (if ref == "inf" then some (0 : Rat) else (parseRat? ref).map (1 / ·)), parseRat? fc, parseRat? rate,
+          parseNat? n with
+    | some dm, some ir, some fc, some rate, some n =>
       showList showRat ((List.range n).map fun k =>
-        frac1 (phaseTurns dm ref (fc + (fftfreqBin n k : Rat) * rate / n)))
+        frac1 (phaseTurnsInv dm ir (fc + (fftfreqBin n k : Rat) * rate / n)))
     | _, _, _, _, _ => "bad-arg"
   | ["bounds", n, dt, db] =>
     match parseNat? n, parseRat? dt, parseRat? db with
